@@ -34,6 +34,7 @@ ASSUMPTIONS = [
     "every year of a time series is a member of its table's time axis (documented precondition of TimeDependentValuesEntry / TimeDependentConnections; values outside the axis are not written)",
     "a program set keeps at least one program and a databook at least one population (an empty program book cannot be read back: no currency)",
     "'simulations agree to 1e-9' is read as |a-b| <= 1e-9*max(1, largest magnitude in the run): last-bit input differences (16 stored digits) and different summation orders (re-read tables are ordered differently) are amplified by cancellation in stiff models with up to 1e10 people; 80% of the cases use numbers that a spreadsheet stores exactly, so that content comparisons are exact there",
+    "when two runs that should agree do not, a control experiment moves every parameter-set value by one unit in the last place; if that alone changes the result beyond the tolerance the model amplifies rounding noise and the comparison is counted as inconclusive (about 1 case in 2000), not as a violation",
     "the 'export' of a ParameterSet is its databook (ProjectData.to_spreadsheet) plus its calibration_spreadsheet(); of a ProgramSet its to_spreadsheet()",
     "reconcile is made reproducible by passing randseed/maxiters to sciris.asd (the atomica API does not expose them); only the reconciled set vs its own export is compared",
     "zero-uncertainty sampling is exercised on objects whose uncertainties are all 0 or empty; sampling twice is a documented refusal",
@@ -235,6 +236,31 @@ def _cmp(arr_a, arr_b, exact=None):
     return None
 
 
+def _ill_conditioned(stg, F, ps, pg, ins):
+    """control experiment, run only when two simulations that should agree do not: move every value of the parameter set by
+    one unit in the last place and simulate again. If that alone moves the result by more than the tolerance, the model
+    amplifies rounding noise (explosive feedback, x**0.25 of a cancellation residue, ...) and a 1e-9 agreement of runs whose inputs
+    differ in the 16th digit / whose sums are taken in another order is not decidable: the comparison is counted as inconclusive."""
+    import sciris as sc
+
+    try:
+        base = H.arrays(H.simulate(stg, F, ps, pg, ins))
+        for direction in (np.inf, -np.inf):
+            q = sc.dcp(ps)
+            for par in q.all_pars():
+                for ts in par.ts.values():
+                    ts.vals = [float(np.nextafter(x, direction)) for x in ts.vals]
+                    if ts.assumption is not None:
+                        ts.assumption = float(np.nextafter(ts.assumption, direction))
+            if q.initialization is not None:
+                q.initialization.values = {k: np.nextafter(np.asarray(x, dtype=float), direction) for k, x in q.initialization.values.items()}
+            if _cmp(base, H.arrays(H.simulate(stg, F, q, pg, ins))):
+                return True
+    except Exception:
+        return False
+    return False
+
+
 def _labels(case, extra=()):
     labs = ["kind:" + case["kind"]]
     if "exact" in case:
@@ -257,6 +283,7 @@ def check_rt_books(case):
     F, D, ps, pg, ins, stg = b["F"], b["D"], b["ps"], b["progset"], b["instructions"], b["settings"]
     v = V()
     labels = []
+    inconclusive = 0
     if case.get("init"):
         ps.set_initialization(res0, year=float(res0.t[min(len(res0.t) - 1, 2)]))
         try:
@@ -292,7 +319,10 @@ def check_rt_books(case):
         v.add("rt-books/behaviour/reread-not-runnable/" + type(e).__name__, "(%s) " % _exc(e) + "original runs, re-read books raise %r" % e)
         v.flush()
     c = _cmp(arr0, arr1, same)
-    if c:
+    if c and _ill_conditioned(stg, F, ps, pg, ins):
+        labels.append("inconclusive:ill-conditioned-model")
+        inconclusive = 1
+    elif c:
         v.add("rt-books/behaviour/first-trip", "simulation of re-read books differs (content %s): %r" % ("bit-identical" if same else "equal to 1e-14", c))
     # second trip: exact
     try:
@@ -311,7 +341,7 @@ def check_rt_books(case):
     if c:
         v.add("rt-books/second-trip/behaviour", "second round trip is not bit-identical: %r" % (c,))
     v.flush()
-    return {"nontrivial": _rich(case), "labels": _labels(case, labels + (["content:bit-identical"] if same else ["content:1e-14"]))}
+    return {"nontrivial": _rich(case) and not inconclusive, "labels": _labels(case, labels + (["content:bit-identical"] if same else ["content:1e-14"])), "inconclusive": {"ill-conditioned-model": inconclusive} if inconclusive else {}}
 
 
 # --------------------------------------------------------------------------- rt-framework
@@ -323,6 +353,7 @@ def check_rt_framework(case):
     b, res0, arr0 = _build(case["spec"])
     F, D, ps, pg, ins, stg = b["F"], b["D"], b["ps"], b["progset"], b["instructions"], b["settings"]
     v = V()
+    inconclusive = 0
     try:
         F2 = H.rt_framework(F)
     except Exception as e:
@@ -346,13 +377,16 @@ def check_rt_framework(case):
             pg2 = H.rt_progset(pg, F2, D) if pg is not None else None
             arr1 = H.arrays(H.simulate(stg, F2, ps2, pg2, ins))
             c = _cmp(arr0, arr1, same)
-            if c:
+            if c and _ill_conditioned(stg, F, ps, pg, ins):
+                inconclusive = 1
+            elif c:
                 v.add("rt-framework/behaviour", "simulation with the re-read framework differs (content %s): %r" % ("bit-identical" if same else "1e-14", c))
         except Exception as e:
             v.add("rt-framework/behaviour/reread-not-usable/" + type(e).__name__, "(%s) " % _exc(e) + "original framework runs; with the re-read framework: %r" % e)
     v.flush()
     ts = {p.get("ts") for p in case["spec"]["pars"]} - {None, 1.0}
-    return {"nontrivial": True, "labels": _labels(case, ["framework:timescales" if ts else "framework:no-timescale", "content:bit-identical" if same else "content:1e-14"])}
+    labs = ["framework:timescales" if ts else "framework:no-timescale", "content:bit-identical" if same else "content:1e-14"] + (["inconclusive:ill-conditioned-model"] if inconclusive else [])
+    return {"nontrivial": not inconclusive, "labels": _labels(case, labs), "inconclusive": {"ill-conditioned-model": 1} if inconclusive else {}}
 
 
 # --------------------------------------------------------------------------- binary
@@ -763,6 +797,8 @@ def check_state(s, v, after, exact_inputs):
     if len(v.items) > n0:
         return "diverged"
     c = _cmp(live, arr2, same)
+    if c and _ill_conditioned(s.stg, s.F, s.ps, s.pg, s.ins):
+        return "inconclusive:ill-conditioned-model"
     if c:
         culprit = "both"
         a_ps, _ = _try(lambda: H.arrays(H.simulate(s.stg, s.F, ps2, s.pg, s.ins)))
@@ -785,6 +821,8 @@ def check_stateful(case):
     labels = []
     r = check_state(s, v, "build", case["exact"])
     v.flush()
+    if r.startswith("inconclusive"):
+        return {"nontrivial": False, "labels": _labels(case, ["state:" + r]), "inconclusive": {"ill-conditioned-model": 1}}
     n_edit = 0
     for op in case["ops"]:
         name = op["op"] + ("-" + op["what"] if "what" in op else "")
@@ -810,7 +848,10 @@ def check_stateful(case):
         r = check_state(s, v, name, case["exact"])
         labels.append("state:" + r)
         v.flush()
-    return {"nontrivial": n_edit >= 1, "labels": _labels(case, sorted(set(labels)) + ["ops:%d" % len(case["ops"])])}
+        if r.startswith("inconclusive"):
+            break
+    inc = sum(1 for l in labels if l.startswith("state:inconclusive"))
+    return {"nontrivial": n_edit >= 1 and not inc, "labels": _labels(case, sorted(set(labels)) + ["ops:%d" % len(case["ops"])]), "inconclusive": {"ill-conditioned-model": inc} if inc else {}}
 
 
 # --------------------------------------------------------------------------- library
@@ -853,7 +894,7 @@ def check_lib(case):
     arr0 = H.arrays(H.simulate(stg, F, ps, pg, ins))
     arr1 = H.arrays(H.simulate(stg, F, ps2, pg2, ins))
     c = _cmp(arr0, arr1, same)
-    if c:
+    if c and not _ill_conditioned(stg, F, ps, pg, ins):
         v.add("lib/behaviour", "library %s: simulation of re-read books differs: %r" % (name, c))
     v.flush()
     return {"nontrivial": True, "labels": labels}
